@@ -72,6 +72,11 @@ ThreadPlain ==
     [prog |-> [C0 |-> Class(DefaultOpts, <<U1("n"), DataF("d", SzField("n")), DataF("m", SzMarker(<<0>>, FALSE, TRUE)),
                                            RepCountF("r", U1("e"), SzExpr(EBin("add", EF("n"), EC(1)), "deferred"), NoCond, 0), U1("z")>>)],
      raws |-> <<<<1, 65, 66, 0, 7, 8, 9>>, <<2, 65, 66, 67, 67, 0, 1, 2, 3, 4>>>>, f2 |-> FALSE]
+\* two runs of bit fields (one and two bytes) between other fields: the members of a run are steps of their own, so the
+\* other thread can be scheduled between them
+ThreadBits ==
+    [prog |-> [C0 |-> Class(DefaultOpts, <<U1("n"), BitsF("h", 3), BitsF("l", 5), U1("m"), BitsF("p", 4), BitsF("q", 12), U1("z")>>)],
+     raws |-> <<<<1, 165, 7, 90, 195, 9>>, <<2, 90, 8, 165, 60, 3>>>>, f2 |-> FALSE]
 ThreadRegex ==
     [prog |-> [C0 |-> Class(DefaultOpts, <<U1("n"), DataF("body", SzRegex("crlf", FALSE, TRUE)), U1("z")>>)],
      raws |-> <<<<1, 65, 13, 10, 2>>, <<1, 66, 10, 3>>>>, f2 |-> TRUE]
